@@ -21,6 +21,20 @@ Proof. intros d [l|l| |] [H1 H2]; simpl; split; congruence. Qed.
 Lemma firstn_nonempty : forall (A : Type) (l : list A) n, l <> [] -> (1 <= n)%nat -> firstn n l <> [].
 Proof. intros A [|x l] [|n] H1 H2; simpl; try congruence; lia. Qed.
 
+Lemma batch_loop_step : forall k calc fetch ids chunk, ids <> [] ->
+  batch_loop (S k) calc fetch ids chunk =
+  let l := N.to_nat (N.min (N.of_nat (length ids)) chunk) in
+  match fetch (firstn l ids) with
+  | FOk docs => match calc docs chunk with
+                | Some chunk' => bcons docs (batch_loop k calc fetch (skipn l ids) chunk')
+                | None => BCrash
+                end
+  | FErr => BFail []
+  | FCrash => BCrash
+  | FFuel => BFuel
+  end.
+Proof. intros k calc fetch [|s r] chunk H; [congruence|reflexivity]. Qed.
+
 Lemma batch_loop_total : forall fuel g fetch ids chunk,
   fetch_safe fetch -> (length ids <= fuel)%nat -> 1 <= chunk ->
   batch_loop fuel (calc_now g) fetch ids chunk <> BFuel /\
@@ -32,7 +46,7 @@ Proof.
     remember (s :: r) as ids eqn:E.
     assert (Hne : ids <> []) by (subst; congruence).
     assert (Hlen : (1 <= length ids)%nat) by (subst; simpl; lia).
-    unfold batch_loop; fold batch_loop. rewrite E at 1. rewrite <- E.
+    rewrite batch_loop_step by exact Hne. cbv zeta.
     set (l := N.to_nat (N.min (N.of_nat (length ids)) chunk)).
     assert (Hl1 : (1 <= l)%nat) by (unfold l; lia).
     destruct (Hs (firstn l ids) (firstn_nonempty _ ids l Hne Hl1)) as [Hc1 Hc2].
@@ -62,7 +76,7 @@ Proof.
     remember (s :: r) as ids eqn:E.
     assert (Hne : ids <> []) by (subst; congruence).
     assert (Hlen : (1 <= length ids)%nat) by (subst; simpl; lia).
-    unfold batch_loop; fold batch_loop. rewrite E at 1. rewrite <- E.
+    rewrite batch_loop_step by exact Hne. cbv zeta.
     set (l := N.to_nat (N.min (N.of_nat (length ids)) chunk)).
     assert (Hl1 : (1 <= l)%nat) by (unfold l; lia).
     pose proof (firstn_nonempty _ ids l Hne Hl1) as Hfn.
